@@ -764,6 +764,8 @@ package server
 //@   requires target.References != source.References && target.References != source.Properties && target.References != target.Properties && target.Properties != source.References && target.Properties != source.Properties && source.Properties != source.References
 //@   requires forall k string :: has(target.References, k) && isList(target.References[k]) ==> foreign(cast(target.References[k], "[]interface{}"))
 //@   requires forall k string :: has(source.References, k) && isList(source.References[k]) ==> foreign(cast(source.References[k], "[]interface{}"))
+//@   requires [target-lists-share-no-backing-array-with-source-lists] forall a string, b string :: has(target.References, a) && isList(target.References[a]) && has(source.References, b) && isList(source.References[b]) ==> arrOf(cast(target.References[a], "[]interface{}")) != arrOf(cast(source.References[b], "[]interface{}"))
+//@   requires [target-lists-share-no-backing-array-with-each-other] forall a string, b string :: a != b && has(target.References, a) && isList(target.References[a]) && has(target.References, b) && isList(target.References[b]) ==> arrOf(cast(target.References[a], "[]interface{}")) != arrOf(cast(target.References[b], "[]interface{}"))
 //@   ensures [merged-reference-keys] forall k string :: has(target.References, k) <==> (old(has(target.References, k)) || has(source.References, k))
 //@   ensures [target-only-references-kept] forall k string :: old(has(target.References, k)) && !has(source.References, k) ==> target.References[k] == old(target.References[k])
 //@   ensures [source-only-references-copied] forall k string :: !old(has(target.References, k)) && has(source.References, k) ==> target.References[k] == source.References[k]
@@ -790,6 +792,7 @@ package server
 //@     invariant forall k string :: has(target.References, k) && isList(target.References[k]) ==> allocated(cast(target.References[k], "[]interface{}"))
 //@     invariant forall k string :: has(source.References, k) && isList(source.References[k]) ==> foreign(cast(source.References[k], "[]interface{}"))
 //@     invariant forall k string :: has(target.References, k) <==> (old(has(target.References, k)) || visited(k))
+//@     invariant forall k string :: visited(k) && old(has(target.References, k)) ==> !foreign(cast(target.References[k], "[]interface{}")) || (isList(old(target.References[k])) && arrOf(cast(target.References[k], "[]interface{}")) == arrOf(cast(old(target.References[k]), "[]interface{}")))
 //@     invariant forall k string :: !visited(k) ==> target.References[k] == old(target.References[k])
 //@     invariant forall k string :: visited(k) && !old(has(target.References, k)) ==> target.References[k] == source.References[k]
 //@     invariant forall k string :: visited(k) && old(has(target.References, k)) ==> isList(target.References[k])
